@@ -4,10 +4,13 @@ from common.driver import Job
 PROPS = {}
 
 
-def prop(pid, level, rule, assumptions=(), guards=()):
+CRASH = ["crash:*", "hang:*"]
+
+
+def prop(pid, level, rule, assumptions=(), guards=(), classes=None):
     def deco(fn):
         PROPS[pid] = {"jobs": fn, "level": level, "rule": rule, "assumptions": list(assumptions),
-                      "guards": list(guards)}
+                      "guards": list(guards), "classes": (list(classes) + CRASH) if classes else None}
         return fn
     return deco
 
@@ -154,6 +157,76 @@ def c20(tier, seed):
         for i in range(sh):
             jobs.append(Job("acstruct-f%d-%02d" % (f, i), H, ["acstruct", f, 2, 2 + X, i, sh], wraps=W, weight=12))
     return jobs
+
+VA_WRAPS = ["malloc", "calloc", "realloc", "strdup", "free"]
+
+
+def tree_jobs(tier, which):
+    """shared job list of the qtreetbl searches; which = 'map' | 'walk' | 'all'"""
+    H = ["seqmc/tree.c"]
+    X = tier == "thorough"
+    jobs = []
+    if which in ("map", "all"):
+        for cfg in range(4):
+            jobs.append(Job("tree-map-cfg%d-U%d" % (cfg, 13 if X else 11), H, ["map", cfg, 13 if X else 11, 1], wraps=VA_WRAPS, weight=30 if X else 5))
+            jobs.append(Job("tree-map-cfg%d-U%d-values" % (cfg, 7 if X else 6), H, ["map", cfg, 7 if X else 6, 3], wraps=VA_WRAPS, weight=20 if X else 5))
+    if which in ("walk", "all"):
+        jobs.append(Job("tree-walk-U1", H, ["walk", 1, 0, 1], wraps=VA_WRAPS, weight=2))
+        jobs.append(Job("tree-walk-U2", H, ["walk", 2, 0, 1], wraps=VA_WRAPS, weight=40))
+        for ep in (1, 127, 128, 253, 254, 255):
+            jobs.append(Job("tree-walk-U3-d%d-e%d" % (22 if X else 14, ep), H, ["walk", 3, 22 if X else 14, ep], wraps=VA_WRAPS, weight=30 if X else 8))
+        for ep in (1, 254):
+            jobs.append(Job("tree-walk-U4-d%d-e%d" % (13 if X else 9, ep), H, ["walk", 4, 13 if X else 9, ep], wraps=VA_WRAPS, weight=40 if X else 8))
+        if X:
+            for ep in (1, 254):
+                jobs.append(Job("tree-walk-U5-d10-e%d" % ep, H, ["walk", 5, 10, ep], wraps=VA_WRAPS, weight=40))
+    return jobs
+
+
+@prop("C01", "model_checking",
+      "BFS closure of every tree state reachable by put/remove/clear over a universe of U keys (string keys / binary keys of "
+      "differing lengths / binary keys under a descending user comparator / string keys under a length-first comparator) and "
+      "up to 3 value versions (1 byte, 4 bytes with embedded+trailing NUL, empty); from every state every operation, then get "
+      "of every universe key (both newmem modes, errno), size, find_min, find_max against a sorted-array model. "
+      "A state is non-trivial when its canonical (shape, colour, key, value) string is new",
+      ["reference ordering and sorted-array model in engines/seqmc/tree.c", "every transition is an execution of the real code: traces_validated_against_impl = transitions"],
+      [need("states", 1000), need("transitions", 10000), forbid("replay_divergence")], classes=["map:*"])
+def c01(tier, seed):
+    return tree_jobs(tier, "map")
+
+
+@prop("C02", "model_checking",
+      "same closure as C01; after every transition (successful or failed, incl. removal of absent keys and replacement) an "
+      "independent checker walks the public node fields: BST order under the table's ordering, black root, no red-red, equal "
+      "black height, no right-leaning lone red link, node count = size(); qtreetbl_check() must agree; with user comparators "
+      "every lookup is charged and must stay within 2*log2(n+1) comparisons",
+      ["independent structure checker in engines/seqmc/tree.c"],
+      [need("states", 1000), need("structure_checks", 10000), need("rotate_left"), need("rotate_right"), need("flip_color"),
+       need("fournode_states"), need("lookup_cost_checks", 1000), forbid("replay_divergence")], classes=["llrb:*"])
+def c02(tier, seed):
+    return tree_jobs(tier, "map")
+
+
+@prop("C03", "model_checking",
+      "BFS over histories of put / remove / complete walk (both newmem modes) / walk abandoned after 1 or 2 steps / "
+      "find_nearest for every probe (below min, each key, each gap, above max) / find_nearest + getnext to the end; canonical "
+      "state keeps the table epoch, every node's stamp and parent link. Full closure for U = 1 and U = 2 (every 8-bit epoch "
+      "value incl. wrap), depth <= 14 for U = 3 from start epochs 1,127,128,253,254,255 and depth <= 9 for U = 4 from epochs 1,254 (thorough: 22 / 13, U = 5 depth 10), start epochs reached through the API. Oracle: a walk from a zeroed cursor returns exactly the sorted model entries, then ends",
+      ["model of 'a walk was left unfinished' in engines/seqmc/tree.c"],
+      [need("states", 10000), need("max_depth", 200), forbid("replay_divergence")], classes=["walk:*"])
+def c03(tier, seed):
+    return tree_jobs(tier, "walk")
+
+
+@prop("C04", "model_checking",
+      "same search as C03; from every state find_nearest for every probe: floor semantics (equal key, else greatest smaller, "
+      "else smallest), ENOENT on empty, answer compared with a model that only knows the key set (history independence), "
+      "termination by a comparator-call budget of 8(n+2); continuing with getnext visits every key exactly once when no walk "
+      "was left unfinished, and never a key twice otherwise",
+      ["comparator budget as deterministic termination oracle; CPU watchdog for getnext"],
+      [need("states", 10000), forbid("replay_divergence")], classes=["nearest:*", "nearwalk:*"])
+def c04(tier, seed):
+    return tree_jobs(tier, "walk")
 
 NOT_YET = {}
 ENGINES = [
